@@ -12,6 +12,7 @@ fn main() {
 		"error_code_roundtrip" => probes::error_code_roundtrip(),
 		"client_tables_return_to_empty" => probes::client_tables_return_to_empty(),
 		"client_call_routing" => probes::client_call_routing(),
+		"client_batch_positional" => probes::client_batch_positional(),
 		_ => json!({"probe": name, "error": "unknown probe"}),
 	};
 	println!("{}", res);
